@@ -1,6 +1,8 @@
 package main
 
 import (
+	"go/token"
+	"os"
 	"strings"
 
 	"golang.org/x/tools/go/ssa"
@@ -336,6 +338,143 @@ func listingTable(c *Ctx, m *shimModel, fn *ssa.Function, name string) map[strin
 		c.Unresolved("R2.listing", name+": loop body")
 		return nil
 	}
+	// A hand-written loop may test more than the index in its condition: `for i := 0; hide && i < len(xs); i++`.
+	// Leading exit tests on the (loop-invariant) mode flag or on the forward index bound are part of the loop
+	// condition, not of the per-identity decision; the mode is then known inside the loop and the mode-off case is
+	// decided outside it (bulk append, checked below).
+	isModeValue := func(v ssa.Value) bool {
+		v = w.canon(fn, v)
+		return m.isLoadOfField(v, m.fNoUp)
+	}
+	modeHoisted := false
+	pureBlock := func(b *ssa.BasicBlock) bool {
+		for _, ins := range b.Instrs {
+			switch x := ins.(type) {
+			case *ssa.Call:
+				if bi, ok := x.Call.Value.(*ssa.Builtin); !ok || (bi.Name() != "len" && bi.Name() != "cap") {
+					return false
+				}
+			case *ssa.Store, *ssa.MapUpdate, *ssa.Go, *ssa.Defer, *ssa.Send:
+				return false
+			}
+		}
+		return true
+	}
+	condBlocks := []*ssa.BasicBlock{head}
+	for cur := body; cur != nil && cur != castBlock && pureBlock(cur); {
+		ifi, ok := cur.Instrs[len(cur.Instrs)-1].(*ssa.If)
+		if !ok || !cur.Succs[0].Dominates(castBlock) && cur.Succs[0] != castBlock {
+			break
+		}
+		// an exit test: the other successor leaves the loop (it cannot get back to the loop head)
+		dbgf("%s cur=%d succs=%d,%d head=%d reaches=%v", name, cur.Index, cur.Succs[0].Index, cur.Succs[1].Index, head.Index, blockReaches(cur.Succs[1], head))
+		if blockReaches(cur.Succs[1], head) {
+			break
+		}
+		isBound := false
+		if bin, ok := ifi.Cond.(*ssa.BinOp); ok && bin.Op == token.LSS && isForwardRangeIndex(bin.X) && lenArg(bin.Y) != nil {
+			isBound = true
+		}
+		if !isBound && !isModeValue(ifi.Cond) {
+			break
+		}
+		condBlocks = append(condBlocks, cur)
+		body = cur.Succs[0]
+		cur = body
+	}
+	for _, cb := range condBlocks {
+		if ifi, ok := cb.Instrs[len(cb.Instrs)-1].(*ssa.If); ok && isModeValue(ifi.Cond) && (cb.Succs[0] == body || cb.Succs[0].Dominates(body)) && !blockReaches(cb.Succs[1], head) {
+			modeHoisted = true
+			dbgf("%s hoisted by block %d cond %s", name, cb.Index, w.Short(ifi.Cond))
+		}
+	}
+	// mode-off case of a hoisted test: the whole upstream listing is appended to the result under the fact mode == off
+	bulkOK := false
+	if modeHoisted {
+		var ranged ssa.Value
+		for _, ins := range castBlock.Instrs {
+			if ia, ok := ins.(*ssa.IndexAddr); ok && isForwardRangeIndex(ia.Index) {
+				ranged = ia.X
+			}
+		}
+		ff := w.Facts(fn)
+		dbgf("%s hoisted; ranged=%v", name, ranged)
+		for _, call := range callsIn(fn) {
+			cv, ok := call.(*ssa.Call)
+			if !ok {
+				continue
+			}
+			if b, isB := cv.Call.Value.(*ssa.Builtin); !isB || b.Name() != "append" || len(cv.Call.Args) != 2 || ranged == nil {
+				continue
+			}
+			if !w.SameValue(fn, cv.Call.Args[1], ranged) {
+				continue
+			}
+			off := ff.Any(cv.Block(), func(l Lit) bool { return isModeValue(l.V) && !l.Pol })
+			// the appended-to slice is the one the loop goes on with: the call's result reaches a phi of a loop-condition block
+			flows := false
+			seenPhi := map[*ssa.Phi]bool{}
+			var reach func(v ssa.Value, depth int) bool
+			reach = func(v ssa.Value, depth int) bool {
+				v = throughCell(strip(v))
+				if v == ssa.Value(cv) {
+					return true
+				}
+				phi, ok := v.(*ssa.Phi)
+				if !ok || seenPhi[phi] || depth > 6 {
+					return false
+				}
+				seenPhi[phi] = true
+				for _, e := range phi.Edges {
+					if reach(e, depth+1) {
+						return true
+					}
+				}
+				return false
+			}
+			for _, cb := range condBlocks {
+				for _, ins := range cb.Instrs {
+					if phi, ok := ins.(*ssa.Phi); ok && reach(phi, 0) {
+						flows = true
+					}
+				}
+			}
+			// or the result lives in a variable (captured by a closure): the bulk append is stored into the variable
+			// the appends of the loop body are stored into
+			storedTo := func(call *ssa.Call) map[*ssa.Alloc]bool {
+				out := map[*ssa.Alloc]bool{}
+				if refs := call.Referrers(); refs != nil {
+					for _, r := range *refs {
+						if st, ok := r.(*ssa.Store); ok && st.Val == ssa.Value(call) {
+							if a, ok := st.Addr.(*ssa.Alloc); ok {
+								out[a] = true
+							}
+						}
+					}
+				}
+				return out
+			}
+			mine := storedTo(cv)
+			for _, other := range callsIn(fn) {
+				oc, ok := other.(*ssa.Call)
+				if !ok || oc == cv || !(body.Dominates(oc.Block()) || oc.Block() == body) {
+					continue
+				}
+				if b, isB := oc.Call.Value.(*ssa.Builtin); isB && b.Name() == "append" {
+					for a := range storedTo(oc) {
+						if mine[a] {
+							flows = true
+						}
+					}
+				}
+			}
+			dbgf("%s bulk append at %s off=%v flows=%v", name, w.Pos(cv.Pos()), off, flows)
+			if off && flows {
+				bulkOK = true
+			}
+		}
+		c.Check(bulkOK, "R2.listing", name+"|mode off: every upstream identity is listed (mode test hoisted out of the loop)", w.FnPos(fn), "append(result, <the whole upstream listing>...) under the fact mode == off", "the mode test is made outside the loop, but on the mode-off path the whole upstream listing is not appended to the result")
+	}
 	spec := shimSpec(c, m, func(method string, args []ssa.Value) absVal { return absVal{K: avUnknown, Tag: "agent." + method} })
 	spec.OnInstr = func(e *dtRun, ins ssa.Instruction) string {
 		if call, ok := ins.(*ssa.Call); ok {
@@ -382,6 +521,12 @@ func listingTable(c *Ctx, m *shimModel, fn *ssa.Function, name string) map[strin
 		want := castFails || (!hit && !(noup && kidOK))
 		ms := dtMatch(leaves, val)
 		rowKey := "castFails=" + boolStr(castFails) + " cacheHit=" + boolStr(hit) + " modeOn=" + boolStr(noup) + " keyidOK=" + boolStr(kidOK)
+		if modeHoisted && !noup {
+			// decided by the bulk append above: the loop does not run with the mode off
+			tbl[rowKey] = want
+			c.Check(bulkOK && want, "R2.listing", name+"|"+rowKey, w.FnPos(fn), "listed (bulk append on the mode-off path)", "an in-agent identity in this case is not listed although the mode is off")
+			continue
+		}
 		if len(ms) == 0 {
 			c.Und("R2.listing", name+"|"+rowKey, w.FnPos(fn), "no path of the loop body covers this case")
 			continue
@@ -410,6 +555,28 @@ func listingTable(c *Ctx, m *shimModel, fn *ssa.Function, name string) map[strin
 	c.Floor("R2.listing", rows, 12, "listing cases of "+name)
 	// in-memory certificates are appended unconditionally: a range over the certificate table whose body appends with no branch
 	return tbl
+}
+
+// blockReaches: to is reachable from from along CFG edges.
+func blockReaches(from, to *ssa.BasicBlock) bool {
+	seen := map[*ssa.BasicBlock]bool{}
+	var visit func(b *ssa.BasicBlock) bool
+	visit = func(b *ssa.BasicBlock) bool {
+		if b == to {
+			return true
+		}
+		if seen[b] {
+			return false
+		}
+		seen[b] = true
+		for _, s := range b.Succs {
+			if visit(s) {
+				return true
+			}
+		}
+		return false
+	}
+	return visit(from)
 }
 
 func signTable(c *Ctx, m *shimModel) {
@@ -505,4 +672,4 @@ func signTable(c *Ctx, m *shimModel) {
 	c.Floor("R3.sign", rows, 64, "cases of SignWithFlags")
 }
 
-var debugDT = false
+var debugDT = os.Getenv("YDEBUGDT") != ""
